@@ -255,7 +255,7 @@ def rule_sg7(A: Analysis, rep):
         hdr = [n for n in g.nodes if n.kind == "test" and n.info is loops[0]][0]
         wpn = g.node_of(_stmt_of(wps[0]))
         r = g.reach([wpn], removed=gb, skip_labels=is_exc)
-        back = [n for n in r if any(m is hdr and l == "loop" for m, l in n.succ)]
+        back = [n for n in r if any(m is hdr and is_back(l) for m, l in n.succ)]
         rep.check(bool(gb) and not back, "SG7", "every reaped pid recorded", loops[0], "no iteration drops a reaped child",
                   "an iteration can continue without recording the reaped pid")
     hs = [h for h in walk_local(fi.node) if isinstance(h, ast.ExceptHandler)]
